@@ -9,6 +9,7 @@ every theorem holds for every table).  Texts are `List Char`.
 -/
 import TraitsVerif.Model.DslGrammar
 import TraitsVerif.Model.DslDenote
+import TraitsVerif.Model.DslMatch
 import TraitsVerif.Generated.Grammar
 import TraitsVerif.Lemmas.DslLex
 import TraitsVerif.Lemmas.DslGrammar
@@ -203,6 +204,34 @@ example : (compileChars (fun _ => false) "c:items.v".toList).map Forest.paths = 
      [.named ['c'] false false, .dictItems true true, .named ['v'] true false],
      [.named ['c'] false false, .listItems true true, .named ['v'] true false],
      [.named ['c'] false false, .setItems true true, .named ['v'] true false]] := by decide
+
+/-! ## the filter elements -/
+
+/-- `+name` matches exactly the traits whose metadata `name` is not None —
+a defined falsy value (False, 0, "") is metadata like any other. -/
+theorem C15_metadata_means_not_none (m : Name) (t : TraitInfo) :
+    ((Filter.metadata m).matches t = true ↔ t.get m ≠ .none) ∧
+    (t.get m = .falsy → (Filter.metadata m).matches t = true) ∧
+    (Filter.anytrait.matches t = true) := by
+  refine ⟨by simp [Filter.matches], fun h => by simp [Filter.matches, h], rfl⟩
+
+/-- The text `+name` compiles to one graph, attached on an object to exactly
+its traits whose metadata `name` is not None. -/
+theorem C15_plus_name_targets (uw : Char → Bool) (m : Name) (hv : validName uw m = true)
+    (ts : List TraitInfo) :
+    ∃ gs, compileChars uw ('+' :: m) = .ok gs ∧
+      leafTargets gs ts = (ts.filter (fun t => t.get m != .none)).map (·.name) := by
+  have hr : IsRendering (.metadata m) ('+' :: m) :=
+    ⟨[([], .plus), ([], .name m)], [], rfl, by simp [allWs], rfl, by simp [renderD, Tok.text]⟩
+  have hp := C15_parse_render uw (.metadata m) ('+' :: m) (by simp [grammatical, shape, namesOk, hv]) hr
+  refine ⟨_, by simp only [compileChars, hp, compileExpr]; exact create_total _ _, ?_⟩
+  simp only [toExpr, createD, Forest.dedupe, leafTargets, Forest.paths, Observer.targets,
+    List.flatMap_cons, List.flatMap_nil, List.append_nil, List.getLast?_singleton]
+  rfl
+
+example : leafTargets (.cons (.named ['c'] false false) (.cons (.filtered true (.metadata ['s'])) .nil .nil) .nil)
+    [⟨['o', 'n'], [(['s'], .truthy)]⟩, ⟨['o', 'f', 'f'], [(['s'], .falsy)]⟩, ⟨['n', 'o'], [(['s'], .none)]⟩,
+     ⟨['p'], []⟩] = [['o', 'n'], ['o', 'f', 'f']] := by decide
 
 /-! ## spellings -/
 
